@@ -383,7 +383,7 @@ class Builder(object):
     o, r = self.objtypes, self.records
     lit = self.val(v)
     key = ('v', lit, tuple(zones))
-    if key in self.seen or depth > 60:
+    if key in self.seen or depth > 400:
       return
     self.seen.add(key)
     t = type(v)
